@@ -73,9 +73,25 @@ Definition isfile (fs : fsys) (p : path) : bool := match fs_get fs p with Some _
 (* ---------- Platform.find_include_file ---------- *)
 (* the un-memoised search: the includer's directory first (quote form only), then
    the configured directories in order; first existing file wins *)
+(* os.path.abspath(os.path.join(dir, name)) on component lists: "." and "" are dropped,
+   ".." cancels the component before it (lexically; a leading ".." stays) *)
+Fixpoint norm_aux (acc : list string) (p : path) : path :=
+  match p with
+  | [] => rev acc
+  | c :: r =>
+      if String.eqb c "." || String.eqb c "" then norm_aux acc r
+      else if String.eqb c ".." then
+        match acc with
+        | x :: acc' => if String.eqb x ".." then norm_aux (c :: acc) r else norm_aux acc' r
+        | [] => norm_aux [c] r
+        end
+      else norm_aux (c :: acc) r
+  end.
+Definition norm (p : path) : path := norm_aux [] p.
+
 Definition candidates (ds : list path) (k : mkey) : list path :=
   let '(name, this, angle) := k in
-  map (fun d => d ++ name) ((if angle then [] else [this]) ++ ds).
+  map (fun d => norm (d ++ name)) ((if angle then [] else [this]) ++ ds).
 Definition search (fs : fsys) (ds : list path) (k : mkey) : option path :=
   find (isfile fs) (candidates ds k).
 
